@@ -551,6 +551,22 @@ func runNames(c NamesCase) (string, bool) {
 		return fmt.Sprintf("goose panicked: %v", tr.Panic), true
 	}
 	rejected := len(tr.Errs)
+	if rejected > 0 {
+		// goose refused some declarations (a complete file is not produced). The declarations that
+		// are still emitted may mention a refused one by its (reserved) name — they are dangling in
+		// any case — so only the lexical structure and the definition names are checked here.
+		toks, _, err := vread.Lex(tr.Text)
+		if err != nil {
+			return fmt.Sprintf("emitted text is not lexically well-formed: %v\n--- Go ---\n%s\n--- emitted ---\n%s", err, src, tr.Text), true
+		}
+		for i := 0; i+1 < len(toks); i++ {
+			atStart := i == 0 || toks[i-1].Kind == vread.TDot
+			if atStart && toks[i].Kind == vread.TIdent && toks[i].Text == "Definition" && (toks[i+1].Kind != vread.TIdent || isReservedName(toks[i+1].Text)) {
+				return fmt.Sprintf("a definition with the unreadable name %s is emitted\n--- Go ---\n%s\n--- emitted ---\n%s", toks[i+1], src, tr.Text), true
+			}
+		}
+		return "", true
+	}
 	f, err := vread.ParseFile(tr.Text)
 	if err != nil {
 		return fmt.Sprintf("emitted text is not well-formed: %v\n--- Go ---\n%s\n--- emitted ---\n%s", err, src, tr.Text), true
